@@ -261,7 +261,9 @@ static void multivariate()
     // floating-point number; nothing in the definition reduces it with a rounded value of 2 pi first)
     if (R.shard.idx == 0)
     {
-        for (double td : {0.5, -1.0, 3.0, 7.0, -10.0, 100.0, 1000.0, -12345.678, 1e6, -3e6})
+        // each returned coordinate is a value of its own: rho*cos(theta) and rho*sin(theta) to a few ulp of THAT coordinate (one subnormal
+        // spacing of slack), for tiny angles and angles next to a multiple of pi/2 as well, where one coordinate is far below rho
+        for (double td : {0.5, -1.0, 3.0, 7.0, -10.0, 100.0, 1000.0, -12345.678, 1e6, -3e6, 1e-20, -3e-9, 1e-30, 1.5707963267948966, -1.5707963267948966, 3.141592653589793, 4.71238898038469, 1.5707963705062866, 3.1415927410125732})
         {
             for (double rd : {1.0, 2.5, 1e-3})
             {
@@ -271,14 +273,17 @@ static void multivariate()
                 ++n; ++nt;
                 std::string in = "{\"rho\":" + num((double)rho) + ",\"theta\":" + num((double)th) + "}";
                 double tol = 8 * EPS * (double)rho;
+                auto near1 = [&](a_real got, Q want) { return fabsq((Q)got - want) <= 8 * (Q)EPS * fabsq(want) + (Q)RMIN * (Q)EPS; };
+                if (!(near1(bx, wx) && near1(by, wy))) { R.viol("real|pol2cart|coordinate", "pol2cart(" + num((double)rho) + ", " + num((double)th) + ") = (" + num((double)bx) + ", " + num((double)by) + ") but rho*cos(theta), rho*sin(theta) = (" + num((double)wx) + ", " + num((double)wy) + "): a coordinate is off by more than 8 eps of its own size", in); }
                 if (!(fabsq((Q)bx - wx) <= tol && fabsq((Q)by - wy) <= tol)) { R.viol("real|pol2cart|value", "pol2cart(" + num((double)rho) + ", " + num((double)th) + ") = (" + num((double)bx) + ", " + num((double)by) + ") but rho*cos(theta), rho*sin(theta) = (" + num((double)wx) + ", " + num((double)wy) + ")", in); }
-                for (double ad : {0.25, -1.0, 50.0, -1000.0})
+                for (double ad : {0.25, -1.0, 50.0, -1000.0, 1e-20, -1.5707963267948966})
                 {
                     a_real al = (a_real)ad;
                     a_real_sph2cart(rho, th, al, &bx, &by, &bz);
                     Q c = (Q)rho * cosq((Q)al);
                     Q sx = c * cosq((Q)th), sy = c * sinq((Q)th), sz = (Q)rho * sinq((Q)al);
                     ++n; ++nt;
+                    if (!(near1(bx, sx) && near1(by, sy) && near1(bz, sz))) { R.viol("real|sph2cart|coordinate", "sph2cart(" + num((double)rho) + ", " + num((double)th) + ", " + num((double)al) + ") = (" + num((double)bx) + ", " + num((double)by) + ", " + num((double)bz) + "): a coordinate is off by more than 8 eps of its own size from (rho cos(alpha) cos(theta), rho cos(alpha) sin(theta), rho sin(alpha))", in); }
                     if (!(fabsq((Q)bx - sx) <= tol && fabsq((Q)by - sy) <= tol && fabsq((Q)bz - sz) <= tol)) { R.viol("real|sph2cart|value", "sph2cart(" + num((double)rho) + ", " + num((double)th) + ", " + num((double)al) + ") is not (rho cos(alpha) cos(theta), rho cos(alpha) sin(theta), rho sin(alpha))", in); }
                 }
             }
